@@ -47,6 +47,7 @@ def run(fb, rep, tier):
     c4_jobid(fb, rep)
     c5_loops(fb, rep)
     c6_rearm(fb, rep)
+    completion_flag(fb, rep, 'C10.7')
 
 
 # ----------------------------------------------------------------------------- .1
@@ -685,3 +686,123 @@ def c6_rearm(fb, rep):
         okr = bool(rets) and all(any('empty' in x and not x.startswith('!') for x in G.guards_of(st, set(st.blocks), b)) for b, i, e in rets)
         rep.ob(clause, 'K2 loop shape', 'setOptions returns only when no option is pending', okr and all('empty' in x and not x.startswith('!') for x in exits),
                st.where, 'loop exits: %s' % exits, st.sname)
+
+
+# ----------------------------------------------------------------------------- .7 (shared with C09.4)
+
+def completion_flag(fb, rep, clause, cls='EngineMainThread', flag='optionsSetFinished', queue='pendingOptions', mutex='mutex'):
+    """K3 typestate of the "all pending work is done" flag a waiter sleeps on: the flag is set to true only
+    while the mutex is held, in a critical section in which the pending queue is known to be empty (it was
+    swapped with an empty local, cleared, or tested empty) and with no swapped-out batch still unapplied
+    (every local batch known empty).  Otherwise waitOptionsSet() returns - and the protocol thread goes on to
+    start a search - while an option is still queued or being applied: the hand-over both the search-control
+    and the data-race properties rely on."""
+    from ..flow import Flow
+    meths = [f for f in fb.funcs.values() if f.has_cfg and strip_t(f.d.get('cls') or '') == cls]
+    sets = []
+    for f in meths:
+        for b, i, e in f.events():
+            if e.get('k') == 'asg' and ap(e.get('l')) == 'this.' + flag and (strip_cast(e.get('r')) or {}).get('cv') == 1:
+                sets.append((f, b, i, e))
+    rep.floor(clause, 'sites that set %s::%s' % (cls, flag), len(sets), 1)
+    for f in sorted({s_[0] for s_ in sets}, key=lambda x: x.key):
+        viol = {}
+
+        def is_queue(t):
+            return ap(strip_cast(t)) == 'this.' + queue
+
+        def local_map(t):
+            t = strip_cast(t)
+            if isinstance(t, dict) and t.get('k') == 'var' and t.get('vk') == 'local' and (t.get('rc') or '').startswith(('std::map', 'std::vector', 'std::deque', 'std::list', 'std::unordered_map')):
+                return t.get('id')
+            return None
+
+        def transfer(e, st, pos):
+            held, pend, loc = st
+            loc = dict(loc)
+            k = e.get('k')
+            if k == 'ctor' and (e.get('cls') or '').startswith(('std::lock_guard', 'std::unique_lock', 'std::scoped_lock')) and any(ap(a) == 'this.' + mutex for a in e.get('args', [])):
+                return [(True, 'U', tuple(sorted(loc.items())))]
+            if k == 'dtor' and (e.get('rc') or e.get('t') or '').startswith(('std::lock_guard', 'std::unique_lock', 'std::scoped_lock')):
+                return [(False, pend, tuple(sorted(loc.items())))]
+            if k == 'decl':
+                for v in e.get('vars', []):
+                    if (v.get('rc') or '').startswith(('std::map', 'std::vector', 'std::deque', 'std::list', 'std::unordered_map')) and '&' not in (v.get('t') or ''):
+                        init = v.get('init')
+                        loc[v['id']] = 'E' if isinstance(init, dict) and init.get('k') == 'ctor' and not init.get('args') else 'U'
+                return [(held, pend, tuple(sorted(loc.items())))]
+            if k == 'call':
+                last = cname(e).split('::')[-1]
+                r = e.get('recv')
+                args = e.get('args', [])
+                if last == 'swap' and r is not None and args:
+                    a, b_ = r, args[0]
+                    for x, y in ((a, b_), (b_, a)):
+                        lid = local_map(x)
+                        if lid is not None and is_queue(y):
+                            if not held:
+                                viol[pos] = ('the queue is swapped without the mutex', e)
+                            old = loc.get(lid, 'U')
+                            loc[lid] = pend
+                            return [(held, old, tuple(sorted(loc.items())))]
+                if r is not None and is_queue(r):
+                    if last == 'clear':
+                        return [(held, 'E', tuple(sorted(loc.items())))]
+                    if last in ('operator[]', 'insert', 'emplace', 'push_back', 'emplace_back', 'operator='):
+                        return [(held, 'U', tuple(sorted(loc.items())))]
+                lid = local_map(r) if r is not None else None
+                if lid is not None and last in ('operator[]', 'insert', 'emplace', 'push_back', 'emplace_back', 'operator='):
+                    loc[lid] = 'U'
+                    return [(held, pend, tuple(sorted(loc.items())))]
+            if k == 'asg' and ap(e.get('l')) == 'this.' + flag and (strip_cast(e.get('r')) or {}).get('cv') == 1:
+                why = []
+                if not held:
+                    why.append('the mutex is not held')
+                if pend != 'E':
+                    why.append('the pending queue is not known to be empty in this critical section')
+                if any(v != 'E' for v in loc.values()):
+                    why.append('a batch taken from the queue may still be unapplied')
+                if why:
+                    viol[pos] = ('; '.join(why), e)
+            return [(held, pend, tuple(sorted(loc.items())))]
+
+        def refine(atom, tv, st):
+            held, pend, loc = st
+            a = strip_cast(atom)
+            if isinstance(a, dict) and a.get('k') == 'call' and cname(a).split('::')[-1] == 'empty' and a.get('recv') is not None:
+                if is_queue(a['recv']):
+                    return [(held, 'E' if tv else 'U', loc)]
+                lid = local_map(a['recv'])
+                if lid is not None:
+                    d = dict(loc)
+                    d[lid] = 'E' if tv else 'U'
+                    return [(held, pend, tuple(sorted(d.items())))]
+            return [st]
+        fl = Flow(f, transfer, refine).run({(False, 'U', ())})
+        if fl.overflow:
+            rep.broken(clause, f.sname + ': configuration overflow')
+            continue
+        first = sorted(viol.items())[0][1] if viol else None
+        rep.ob(clause, 'K3 completion flag', '%s sets %s only under the mutex with the pending queue and every batch taken from it known empty' % (f.sname, flag), not viol,
+               R.site(f, first[1]) if first else f.where, '; '.join('line %s: %s' % (e.get('ln'), w) for _, (w, e) in sorted(viol.items())), f.sname)
+    # the producer keeps the invariant: queueing work and clearing the flag happen in one critical section
+    for f in sorted(meths, key=lambda x: x.key):
+        adds = [(b, i, e) for b, i, e in f.events() if e.get('k') == 'call' and e.get('recv') is not None and ap(strip_cast(e['recv'])) == 'this.' + queue and
+                cname(e).split('::')[-1] in ('operator[]', 'insert', 'emplace', 'push_back', 'emplace_back')]
+        for b, i, e in adds:
+            ls = locksets(f)
+            held = 'this.' + mutex in ls.held(e)
+
+            def clears(ev):
+                return ev is not None and ev.get('k') == 'asg' and ap(ev.get('l')) == 'this.' + flag and (strip_cast(ev.get('r')) or {}).get('cv') == 0
+
+            def unlock(ev):
+                return ev is None or (ev.get('k') == 'dtor' and (ev.get('rc') or ev.get('t') or '').startswith(('std::lock_guard', 'std::unique_lock')))
+            w = f.path_avoiding((b, i), unlock, clears)
+            rep.ob(clause, 'K1 pairing', '%s: work is queued under the mutex and %s is cleared before the mutex is released' % (f.sname, flag), held and w is None, R.site(f, e), '', f.sname)
+
+
+def strip_cast(t):
+    while isinstance(t, dict) and t.get('k') == 'cast':
+        t = t.get('e')
+    return t
